@@ -358,6 +358,10 @@ pub fn decode_check(ctx: &mut Ctx, bytes: &[u8], wsh: bool, class: &'static str,
 impl Monitor for M {
     fn case(&mut self, ctx: &mut Ctx) {
         let light = ctx.light();
+        if super::huge::wanted(ctx) {
+            // "for every byte string whatsoever": one of more than 4 GiB per run
+            super::huge::message_at_start_of_4gib_slice(ctx);
+        }
         if ctx.index % 4 == 1 {
             encode_case(ctx);
             return;
